@@ -117,6 +117,10 @@ func readMessage(buf *bytes.Reader) (*Message, error) {
 	}
 	// read data
 	v := m.DataType.newEmpty(l)
+	if v == nil {
+		// data type without a value
+		return m, nil
+	}
 	if err := read(buf, v, l); err != nil {
 		return nil, fmt.Errorf("reading message %s: %w", m.Tag, err)
 	}
